@@ -103,14 +103,11 @@ def dispatch_map(core, pf):
                     if H.kind(body) == "MethodCall":
                         params = params[1:]   # `self.call(func, args)`: the receiver carries the layout state, not a part of the node
                     ren = {}
-                    rendered = False
                     for p, arg in zip(params, body["args"]):
                         l = H.path_local(arg)
                         if l in binds:
                             ren[p] = l
-                        elif any(H.kind(y) in ("Call", "MethodCall") and (y.get("def") or "") in pf for y in H.walk(arg)):
-                            rendered = True   # an argument is the text of an already printed child: the helper is a text helper, read in place
-                    if ren and not rendered and body["def"] not in out:
+                    if ren and body["def"] not in out:
                         out[body["def"]] = (vs[0], ren)
         # if-let forwarding: `if let Expr::Lambda { args, body } = &expr.node { return format_lambda(args, body, ..) }`
         for n in H.walk(f["body"]):
@@ -336,7 +333,10 @@ def shape_rules(ctx, rid, core, G, scope_fns):
                 # a child printed by a helper that is not one of the general printers (those with an arm per node kind): the helper may
                 # contribute tokens of this construct itself (`format_else_part` prints the `else`)
                 partial = [x for x in strip_layout(flat) if x[0] == "child" and x[2] and not general_printer(core, pf, x[2])]
-                if foreign or delegated or partial:
+                # a forwarded helper that is also handed already rendered children as text parameters: which child a given text
+                # parameter stands for is not tracked, so a mismatch is not a finding
+                prerendered = bool(ren) and name in pf and any(t_.lstrip("&") in ("alloc::string::String", "str") or "Vec<alloc::string::String>" in t_ for t_ in pf[name].get("inputs", []))
+                if foreign or delegated or partial or prerendered:
                     unk = True
                     continue
                 bad.append(why)
